@@ -3,6 +3,7 @@ package props
 import (
 	"bytes"
 	"context"
+	"errors"
 	"fmt"
 	"sort"
 	"strings"
@@ -55,6 +56,21 @@ func runC06onEngine(c *harness.Case, kind string) {
 		x ^= x >> 29
 		if d := x % 300; d > 0 {
 			time.Sleep(time.Duration(d) * time.Microsecond)
+		}
+	}
+	var nDelFault int64
+	if c.Index%2 == 1 {
+		// every other case: about one in eight of compaction's deletes is refused by the engine with a plain error (not a
+		// conflict, not an unknown outcome) - the compaction may leave garbage behind, reads and events must not change
+		var delSeq uint64
+		w.DelFault = func(kind string, key []byte) error {
+			x := uint64(delaySeed)*131 ^ atomic.AddUint64(&delSeq, 1)*0xd6e8feb86659fd93
+			x ^= x >> 32
+			if x%8 == 0 {
+				atomic.AddInt64(&nDelFault, 1)
+				return errors.New("injected engine error on delete")
+			}
+			return nil
 		}
 	}
 	n := harness.NewNode(harness.NodeOpts{KV: w, Config: backend.Config{WatchCacheSize: cache}, NoIdleYield: c.Index%5 == 2})
@@ -282,6 +298,7 @@ func runC06onEngine(c *harness.Case, kind string) {
 	c.Stat("successful_writes", atomic.LoadInt64(&nSucc))
 	c.Stat("failed_writes", atomic.LoadInt64(&nFail))
 	c.Stat("compactions", atomic.LoadInt64(&nCompact))
+	c.Stat("compaction_deletes_refused_by_the_engine", atomic.LoadInt64(&nDelFault))
 	c.AddSet("engines", kind)
 	c.AddSet("cache_sizes", fmt.Sprint(cache))
 	sort.Ints(loopVec)
